@@ -1,6 +1,4 @@
 SPECIFICATION TSpec
-CONSTANTS MaxLen = 0
- Bug = "none"
+CONSTANTS Bug = "none"
  HistOnly = FALSE
- Kinds = "both"
 CHECK_DEADLOCK FALSE
